@@ -16,18 +16,19 @@ LEVEL = 'exploration'
 TECHNIQUE = 'exhaustive decision-table monitor: real Enforcer.enforce vs reference function of the statement, every row'
 RULE = ('rows = (rule set over names {a,b,default} each absent/@/!/role:x/role:y: 125 sets incl. the empty one) x '
         '(default-rule configuration: unset, constructor name default/b/ghost, constructor check object True/False/Role, '
-        'option policy_default_rule = b / empty) x (rules installed by set_rules / constructor / policy file) x '
+        'option policy_default_rule = b / empty) x (rules installed by set_rules / constructor / policy file, as a plain mapping or as a Rules object carrying a default of its own) x '
         '(queried name a,b,default,ghost,zzz) x (4 role sets) x do_raise off/on. Non-trivial = the queried name is '
         'not defined in the rule set (the fallback decides); distinct = distinct row. Stratum `mutation`: the same table re-checked after the '
         'rule set of a living enforcer changed (merge without overwrite, direct store update, item assignment / deletion, overwrite, '
-        'file reload in non-overwrite mode), against the CURRENT rule set.')
+        'file reload in non-overwrite mode), against the CURRENT rule set. Stratum `registered`: a registered default that no file mentions stays '
+        'defined (never decided by the default rule) through histories of policy.d edits, deletions and forced reloads, with and without a main file.')
 ASSUMPTIONS = ['rule bodies contain no rule: references (reference cycles through the default are C06/C13 territory)',
                'role:x / role:y / @ / ! leaves evaluate as C01/C04 state']
 LEVEL_TEXT = ('The complete decision table of the statement (about 1.3e5 rows) is driven through the real enforcer and '
               'compared row by row; a finite quantifier, so enumeration is the right level.')
 LEVEL_NOTE = 'trusted: the 12-line reference function; the name/role universe is small by design'
 PLAN = {'quick': dict(shards=4, wall=90), 'thorough': dict(shards=8, wall=300)}
-MIN = {'mutation_decisions': 20000, 'evaluations': 10000, 'fallback_rows': 2000, 'allow_decisions': 1000, 'deny_decisions': 1000}
+MIN = {'registered_decisions': 2000, 'mutation_decisions': 20000, 'evaluations': 10000, 'fallback_rows': 2000, 'allow_decisions': 1000, 'deny_decisions': 1000}
 ANCHORS = ['oslo_policy.policy:Rules.__missing__', 'oslo_policy.policy:Enforcer.enforce',
            'oslo_policy.policy:Enforcer.set_rules', 'oslo_policy.policy:Rules.__init__']
 REQUIRED_ANCHORS = ['oslo_policy.policy:Enforcer.enforce']
@@ -35,7 +36,7 @@ REQUIRED_ANCHORS = ['oslo_policy.policy:Enforcer.enforce']
 BODIES = [None, '@', '!', 'role:x', 'role:y']
 CREDS = [[], ['x'], ['y'], ['x', 'y']]
 DCFGS = ['unset', 'ctor_default', 'ctor_other', 'ctor_ghost', 'obj_true', 'obj_false', 'obj_role', 'opt_b', 'opt_empty']
-VIAS = ['set_rules', 'ctor', 'file']
+VIAS = ['set_rules', 'ctor', 'file', 'set_rules+own-default', 'ctor+own-default', 'set_rules+own-ghost']
 QUERIES = ['a', 'b', 'default', 'ghost', 'zzz']
 
 
@@ -89,11 +90,16 @@ def build(rules, dcfg, via):
         enf = policy.Enforcer(tree.conf(policy_dirs=[], **overrides), **kw)
     else:
         conf = env.fresh_conf(policy_dirs=[], **overrides)
-        if via == 'set_rules':
+        # a Rules object may carry a default of its own (Rules.load(data, 'default'), a store borrowed from another
+        # enforcer): the default that counts is the one configured on THIS enforcer
+        own = {'set_rules': None, 'ctor': None, 'set_rules+own-default': 'b', 'ctor+own-default': 'default',
+               'set_rules+own-ghost': 'ghost'}[via]
+        store = policy.Rules.from_dict(rules, own) if own else policy.Rules.from_dict(rules)
+        if via.startswith('set_rules'):
             enf = policy.Enforcer(conf, use_conf=False, **kw)
-            enf.set_rules(policy.Rules.from_dict(rules))
+            enf.set_rules(store)
         else:
-            enf = policy.Enforcer(conf, use_conf=False, rules=policy.Rules.from_dict(rules), **kw)
+            enf = policy.Enforcer(conf, use_conf=False, rules=store, **kw)
     return enf, tree
 
 
@@ -229,6 +235,53 @@ def build_overwrite_false(policy, tree, dcfg):
     return enf, tree
 
 
+def check_registered(ctx, case):
+    """Names the service registered are DEFINED even when no file mentions them: after every step of a small history
+    (first load, policy.d file edited, forced reload, policy.d file deleted) they are decided by their own definition and
+    never by the default rule; unknown names follow the default rule of the current files."""
+    from oslo_policy import policy
+    tree = files.Tree(dirs=('pd',))
+    try:
+        if case['main'] is not None:
+            tree.write('policy.yaml', case['main'], 'json')
+        tree.write('pd/a.yaml', case['dir0'], 'json')
+        enf = policy.Enforcer(tree.conf())
+        enf.register_default(policy.RuleDefault('reg', case['reg']))
+        cur_main = dict(case['main'] or {})
+        cur_dir = dict(case['dir0'])
+        ctx.case(case, nontrivial=True, stratum='registered')
+        for step in ['load'] + case['steps']:
+            if step == 'edit-dir':
+                cur_dir = dict(case['dir1'])
+                tree.write('pd/a.yaml', cur_dir, 'json')
+            elif step == 'delete-dir-file':
+                cur_dir = {}
+                tree.delete('pd/a.yaml')
+            elif step == 'force':
+                enf.load_rules(force_reload=True)
+            elif step == 'edit-main' and case['main'] is not None:
+                cur_main = dict(cur_main, extra='@')
+                tree.write('policy.yaml', cur_main, 'json')
+            eff = dict(cur_main)
+            eff.update(cur_dir)
+            eff.setdefault('reg', case['reg'])
+            for q in ('reg', 'a', 'ghost', 'default'):
+                for roles in CREDS:
+                    want = reference(eff, 'unset', q, roles)
+                    try:
+                        got = bool(enf.enforce(q, {}, {'roles': list(roles)}))
+                    except Exception as e:
+                        got = 'EXC:' + type(e).__name__
+                    ctx.count('registered_decisions')
+                    if got != want:
+                        key = 'registered-name-decided-by-default-rule' if q == 'reg' else 'stale-fallback-after-rule-set-change'
+                        ctx.violation(key, case, {'after_step': step, 'effective_rules': eff, 'queried': q, 'roles': roles,
+                                                  'expected': want, 'observed': got})
+                        return
+    finally:
+        tree.cleanup()
+
+
 def run(ctx):
     contracts.missing_never_none()
     idx = 0
@@ -276,6 +329,19 @@ def run(ctx):
         if not mdone:
             break
     ctx.stratum('mutation', exhaustive=mdone and ctx.tier == 'thorough')
+    # ---- registered defaults under file histories -------------------------------
+    ridx = 0
+    step_sets = [['edit-dir'], ['force'], ['edit-dir', 'force'], ['delete-dir-file'], ['edit-dir', 'delete-dir-file'],
+                 ['edit-main', 'edit-dir'], ['force', 'edit-dir', 'force']]
+    for main in (None, {'a': 'role:x'}, {'default': '!'}):
+        for dir0 in ({'default': '@'}, {'default': 'role:y', 'a': '@'}, {'a': '!'}, {'reg': '@'}):
+            for dir1 in ({'default': '@', 'b': '!'}, {'b': '@'}, {'default': '!'}):
+                for reg in ('role:x', '!', '@'):
+                    for steps in step_sets:
+                        ridx += 1
+                        if ctx.mine(ridx):
+                            check_registered(ctx, dict(registered=True, main=main, dir0=dir0, dir1=dir1, reg=reg, steps=steps))
+    ctx.stratum('registered', exhaustive=True)
     ctx.sample(dict(rules={'a': 'role:x', 'default': '@'}, dcfg='unset', mutation='merge-set_rules', change={'default': '!'}), 'mutation')
     for k, v in contracts.EVALS.items():
         ctx.count('contract_evals.' + k, v)
@@ -285,4 +351,6 @@ def replay(ctx, case):
     contracts.missing_never_none()
     if 'mutation' in case:
         return check_mutation(ctx, case)
+    if case.get('registered'):
+        return check_registered(ctx, case)
     check_config(ctx, case['rules'], case['dcfg'], case['via'])
